@@ -39,6 +39,7 @@ namespace pika::threads::detail {
         thread_queue_init_parameters thread_queue_init, scheduler_mode mode)
       : suspend_mtxs_(num_threads)
       , suspend_conds_(num_threads)
+      , resume_requested_(num_threads, 0)
       , pu_mtxs_(num_threads)
       , states_(num_threads)
       , description_(description)
@@ -112,7 +113,13 @@ namespace pika::threads::detail {
 
         states_[num_thread].store(runtime_state::sleeping);
         std::unique_lock<pu_mutex_type> l(suspend_mtxs_[num_thread]);
-        suspend_conds_[num_thread].wait(l);
+        // Only a call to resume() or a state change (stopping, terminating) ends the sleep, a
+        // spurious wake-up of the condition variable must not resume a suspended worker.
+        suspend_conds_[num_thread].wait(l, [this, num_thread]() {
+            return resume_requested_[num_thread] != 0 ||
+                states_[num_thread].load() != runtime_state::sleeping;
+        });
+        resume_requested_[num_thread] = 0;
 
         // Only set running if still in runtime_state::sleeping. Can be set with
         // non-blocking/locking functions to stopping or terminating, in
@@ -126,14 +133,22 @@ namespace pika::threads::detail {
 
     void scheduler_base::resume(std::size_t num_thread)
     {
+        auto wake = [this](std::size_t i) {
+            {
+                std::lock_guard<pu_mutex_type> l(suspend_mtxs_[i]);
+                if (states_[i].load() == runtime_state::sleeping) { resume_requested_[i] = 1; }
+            }
+            suspend_conds_[i].notify_one();
+        };
+
         if (num_thread == std::size_t(-1))
         {
-            for (std::condition_variable& c : suspend_conds_) { c.notify_one(); }
+            for (std::size_t i = 0; i != suspend_conds_.size(); ++i) { wake(i); }
         }
         else
         {
             PIKA_ASSERT(num_thread < suspend_conds_.size());
-            suspend_conds_[num_thread].notify_one();
+            wake(num_thread);
         }
     }
 
